@@ -88,20 +88,24 @@ fn strictly_inside_tri(p: P, t: &[P]) -> bool {
 
 impl Table {
     /// n points in [0,1)^2 * scale, hashed from the seed; regenerated until in general position
-    pub fn new(
-        name: &str,
-        seed: u64,
-        n: usize,
-        scale: f64,
-        as_f32: bool,
-        max_twopart: usize,
-    ) -> Table {
+    pub fn new(name: &str, seed: u64, n: usize, scale: f64, as_f32: bool, max_twopart: usize) -> Table {
+        Table::with_design(name, seed, n, scale, as_f32, max_twopart, None)
+    }
+
+    /// `design`: n points in the unit square that are jittered by hashed offsets of at most 1 % instead of
+    /// being hashed from scratch — a table whose point configuration is designed (e.g. the "spike" table,
+    /// in which a reflex spike of one polygon separates two edges that cross further right)
+    pub fn with_design(name: &str, seed: u64, n: usize, scale: f64, as_f32: bool, max_twopart: usize, design: Option<&[P]>) -> Table {
         let mut st = seed.wrapping_mul(0x2545F4914F6CDD1D) ^ (n as u64) << 32 ^ scale.to_bits();
         let pts = loop {
             let mut pts: Vec<P> = vec![];
-            for _ in 0..n {
-                let x = (splitmix(&mut st) >> 11) as f64 / (1u64 << 53) as f64 * scale;
-                let y = (splitmix(&mut st) >> 11) as f64 / (1u64 << 53) as f64 * scale;
+            for i in 0..n {
+                let hx = (splitmix(&mut st) >> 11) as f64 / (1u64 << 53) as f64;
+                let hy = (splitmix(&mut st) >> 11) as f64 / (1u64 << 53) as f64;
+                let (x, y) = match design {
+                    Some(d) => ((d[i].0 + 0.01 * hx) * scale, (d[i].1 + 0.01 * hy) * scale),
+                    None => (hx * scale, hy * scale),
+                };
                 pts.push(if as_f32 {
                     (x as f32 as f64, y as f32 as f64)
                 } else {
